@@ -5,8 +5,9 @@ set -u
 wt=$1; diff=$2; demo=$3; filter=${4:-}
 cd $wt || exit 2
 export CARGO_TARGET_DIR=$wt/target
-feat="--features native_rule_bootstrap,trusted_runtime,host_test"
 crate=${CRATE:-warp-core}
+feat=""
+[ "$crate" = warp-core ] && feat="--features native_rule_bootstrap,trusted_runtime,host_test"
 git stash -q --include-untracked -- crates 2>/dev/null
 git checkout -q -- crates; 
 # restore demo files from demo/
